@@ -40,8 +40,8 @@ type BatchCfg struct {
 	Stop    bool   `json:"stop"`
 	ExecS   string `json:"execS"` // res | any | absent
 	HasPost bool   `json:"hasPost"`
-	Shape   string `json:"shape"` // results | anys | typed | single | nil
-	Build   string `json:"build,omitempty"` // option | builder | bare (run the *BatchNode inside the builder)
+	Shape   string `json:"shape"`             // results | anys | typed | single | nil
+	Build   string `json:"build,omitempty"`   // option | builder | bare (run the *BatchNode inside the builder)
 	ExecVia string `json:"execVia,omitempty"` // "" (BatchNodeBuilder setters) | copt | cbuilder (exec installed on the CustomNode)
 }
 
@@ -176,8 +176,17 @@ type runtimeEnv struct {
 	// optional hooks bracketing every leaf exec callback (attempt k): the wait family measures real time with them,
 	// on the node objects themselves (no wrapper type around the node: the framework must see the user's own type)
 	leafExecEnter, leafExecLeave func(k int)
-	valueNodes map[int]*leafImpl // leaves implemented by value-type nodes
-	seenCtx    []context.Context
+	valueNodes                   map[int]*leafImpl // leaves implemented by value-type nodes
+	seenCtx                      []context.Context
+	// panic family: the callback named here ("p", "e<k>", "f", "o") panics with panicVal right after it was recorded
+	panicAt  string
+	panicVal any
+}
+
+func (e *runtimeEnv) maybePanic(at string) {
+	if e.panicAt != "" && e.panicAt == at {
+		panic(e.panicVal)
+	}
 }
 
 func (e *runtimeEnv) record(s string) {
@@ -370,6 +379,7 @@ func (l *leafImpl) prep(shared *flyt.SharedStore) (any, error) {
 	v := rt.enter(0)
 	e.record(fmt.Sprintf("p:%d:%d:%d", rt.id, v, e.sid(shared)))
 	l.appendVisit(shared)
+	e.maybePanic("p")
 	o := parseOutVal(e.leafScript(rt.id, v).Prep)
 	if o.cancels {
 		e.cancelNow()
@@ -410,6 +420,7 @@ func (l *leafImpl) exec(arg any) (any, error) {
 		defer e.leafExecLeave(k)
 	}
 	scr := e.leafScript(rt.id, v)
+	e.maybePanic("e" + strconv.Itoa(k))
 	o := execOutcome(scr.Exec, k)
 	if o.cancels {
 		e.cancelNow()
@@ -436,6 +447,7 @@ func (l *leafImpl) fallback(arg any, err error) (any, error) {
 	e := rt.env
 	v := rt.enter(2)
 	e.record(fmt.Sprintf("f:%d:%d:%s:%s", rt.id, v, encVal(arg), errStr(err)))
+	e.maybePanic("f")
 	o := parseOutVal(e.leafScript(rt.id, v).Fb)
 	if o.cancels {
 		e.cancelNow()
@@ -451,6 +463,7 @@ func (l *leafImpl) post(shared *flyt.SharedStore, pv, ev any) (flyt.Action, erro
 	e := rt.env
 	v := rt.enter(3)
 	e.record(fmt.Sprintf("o:%d:%d:%d:%s:%s", rt.id, v, e.sid(shared), encVal(pv), encVal(ev)))
+	e.maybePanic("o")
 	o := parseOutAct(e.leafScript(rt.id, v).Post)
 	if o.cancels {
 		e.cancelNow()
@@ -554,8 +567,10 @@ var (
 	valueImpls      map[int]*leafImpl
 )
 
-func (n valueNode) Prep(ctx context.Context, s *flyt.SharedStore) (any, error) { return valueImpls[n.ID].prep(s) }
-func (n valueNode) Exec(ctx context.Context, p any) (any, error)              { return valueImpls[n.ID].exec(p) }
+func (n valueNode) Prep(ctx context.Context, s *flyt.SharedStore) (any, error) {
+	return valueImpls[n.ID].prep(s)
+}
+func (n valueNode) Exec(ctx context.Context, p any) (any, error) { return valueImpls[n.ID].exec(p) }
 func (n valueNode) Post(ctx context.Context, s *flyt.SharedStore, p, x any) (flyt.Action, error) {
 	return valueImpls[n.ID].post(s, p, x)
 }
@@ -604,7 +619,10 @@ func (e *runtimeEnv) buildFuncNode(l *leafImpl, cfg *LeafCfg, wait time.Duration
 		}
 		return asResult(v), nil
 	}
-	prepAny := func(ctx context.Context, s *flyt.SharedStore) (any, error) { l.rtx().env.seeCtx(ctx, "prep"); return l.prep(s) }
+	prepAny := func(ctx context.Context, s *flyt.SharedStore) (any, error) {
+		l.rtx().env.seeCtx(ctx, "prep")
+		return l.prep(s)
+	}
 	execRes := func(ctx context.Context, p flyt.Result) (flyt.Result, error) {
 		l.rtx().env.seeCtx(ctx, "exec")
 		v, err := l.exec(p)
